@@ -5,6 +5,8 @@ import Driver.HSegment
 import Driver.HQueue
 import Driver.HContainer
 import Driver.HRange
+import Driver.HCli
+import Driver.HFileIO
 /-!
 `ragc_model`: executes the Lean models behind a one-line-in / one-line-out protocol.
 Every handler returns `none` for a request it does not understand; the reply is then `bad-op`.
@@ -12,7 +14,7 @@ Every handler returns `none` for a request it does not understand; the reply is 
 namespace Driver
 
 def handlers : List (List String → Option String) :=
-  [handleKmer, handleTuple, handleSegment, handleQueue, handleContainer, handleRange]
+  [handleKmer, handleTuple, handleSegment, handleQueue, handleContainer, handleRange, handleCli, handleFileIO]
 
 def dispatch (line : String) : String :=
   let fields := line.trimAscii.toString.splitOn " "
